@@ -19,15 +19,27 @@ use crate::common::*;
 
 /// Fault kinds applicable at a position of type `ty` (dynamic flavour).
 /// `item`: the position is a list item (no resolver of its own).
-pub fn kinds_for(ts: &TypeSystem, ty: &Ty, item: bool, flavour: &str) -> Vec<Fault> {
+pub fn kinds_for(ts: &TypeSystem, ty: &Ty, item: bool, flavour: &str, nonfinite_float: bool) -> Vec<Fault> {
     let mut k = vec![];
     if !item {
         k.push(Fault::Err);
-    } else if flavour == "static" {
-        // static schemas can express a failing list item (Vec<Result<T>>) only on
-        // dedicated fields; handled by the static flavour's own table
     }
-    k.push(Fault::Null);
+    if flavour == "static" {
+        // a Rust resolver of a non-null type cannot yield nothing, and the only invalid
+        // leaf it can yield is a non-finite float
+        if !ty.is_nonnull() {
+            k.push(Fault::Null);
+        }
+        if ty.name() == "Float" && ty.list_depth() == 0 && nonfinite_float {
+            k.push(Fault::BadLeaf);
+        }
+        return k;
+    }
+    // a dynamic resolver can express "nothing" for a field (None), and a null list
+    // item only for built-in scalars
+    if !item || (ty.list_depth() == 0 && TypeSystem::is_builtin_scalar(ty.name())) {
+        k.push(Fault::Null);
+    }
     if bad_leaf_applies(ts, ty) {
         k.push(Fault::BadLeaf);
     }
@@ -60,6 +72,7 @@ pub fn main() {
     run.assume("reference executor R1 implements spec §6.4.4 (errors and non-null propagation)");
     run.assume("for two simultaneous faults the spec lets an implementation drop an error whose position was nulled by the other; both outcomes are accepted for such errors only");
     let cases = run.scale(400, 12_000);
+    let static_cases = run.scale(400, 12_000);
     run.set_floors(2000, 500);
     run.require_counter("faults_injected");
     let shards = n_shards(&run);
@@ -83,6 +96,21 @@ pub fn main() {
                     o.max_items = 3;
                     o.kind = if ts.mutation.is_some() && r.chance(1, 4) { OpKind::Mutation } else { OpKind::Query };
                     let gd = gen_doc(&ts, &mut r, &o);
+                    let world = world_for("dynamic", r.next_u64());
+                    let case = Case::new(ts.clone(), gd, world, r.bool());
+                    enumerate(run, &AnySchema::Dyn(schema), &case, &mut r);
+                }
+                // static flavour: S1
+                let ts = vh_schema::s1::model();
+                let schema = AnySchema::S1(vh_schema::s1::schema());
+                let mut i = shard;
+                while i < static_cases {
+                    i += shards;
+                    let mut o = doc_opts(run);
+                    o.max_depth = 3;
+                    o.max_items = 3;
+                    o.kind = if r.chance(1, 4) { OpKind::Mutation } else { OpKind::Query };
+                    let gd = gen_doc(&ts, &mut r, &o);
                     let world = World::new(r.next_u64());
                     let case = Case::new(ts.clone(), gd, world, r.bool());
                     enumerate(run, &schema, &case, &mut r);
@@ -98,7 +126,8 @@ pub fn main() {
     run.finish_code_exit();
 }
 
-fn enumerate(run: &Run, schema: &async_graphql::dynamic::Schema, case: &Case, r: &mut Rng) {
+fn enumerate(run: &Run, schema: &AnySchema, case: &Case, r: &mut Rng) {
+    let flavour = schema.flavour();
     let base = case.reference();
     if base.request_error.is_some() {
         return;
@@ -113,17 +142,28 @@ fn enumerate(run: &Run, schema: &async_graphql::dynamic::Schema, case: &Case, r:
     }
     // positions of the fault-free tree
     let mut singles: Vec<(String, Fault, String)> = vec![];
-    let field_paths: std::collections::BTreeSet<&String> = base.calls.iter().map(|c| &c.path).collect();
+    let field_paths: std::collections::BTreeMap<&String, &vh_model::exec::Call> = base.calls.iter().map(|c| (&c.path, c)).collect();
     for (p, ty) in &base.positions {
         if p.ends_with("__typename") {
             continue;
         }
-        let item = !field_paths.contains(p);
-        for k in kinds_for(&case.ts, ty, item, "dynamic") {
-            singles.push((p.clone(), k, nullability_class(&case.ts, ty)));
+        let call = field_paths.get(p);
+        let item = call.is_none();
+        if flavour == "static" {
+            // fields of the eagerly built SimpleObject have no resolver that could fail
+            let under_simple = base.calls.iter().any(|c| {
+                c.parent_ty == "Stats" && c.field != "derived" && (p == &c.path || p.starts_with(&format!("{}.", c.path)))
+            });
+            if under_simple {
+                continue;
+            }
+        }
+        for k in kinds_for(&case.ts, ty, item, flavour, run.feature("static_nonfinite_float")) {
+            singles.push((p.clone(), k, format!("{flavour}:{}", nullability_class(&case.ts, ty))));
         }
     }
     run.count("cases", 1);
+    run.count(&format!("cases_{flavour}"), 1);
     run.count("positions", base.positions.len() as u64);
     for (p, k, class) in &singles {
         let w = case.world.with_faults(&[(p.clone(), *k)]);
@@ -154,19 +194,19 @@ fn enumerate(run: &Run, schema: &async_graphql::dynamic::Schema, case: &Case, r:
         }
         for (a, b) in pairs {
             let w = case.world.with_faults(&[(singles[a].0.clone(), singles[a].1), (singles[b].0.clone(), singles[b].1)]);
-            one(run, schema, case, w, "pair");
+            one(run, schema, case, w, &format!("{flavour}:pair"));
         }
     }
 }
 
-fn one(run: &Run, schema: &async_graphql::dynamic::Schema, base: &Case, world: World, class: &str) {
+fn one(run: &Run, schema: &AnySchema, base: &Case, world: World, class: &str) {
     let case = Case { ts: base.ts.clone(), gd: base.gd.clone(), printed: base.printed.clone(), world };
     let reference = case.reference();
     let env = Env::new(case.ts.clone(), case.world.clone());
-    let resp = match catch(|| exec_dynamic(schema, case.request(&env))) {
+    let resp = match catch(|| schema.execute(case.request(&env))) {
         Ok(r) => r,
         Err(p) => {
-            run.violation(&format!("C03-panic:{:x}", case.hash()), &format!("executor panicked: {p}"), case.replay_json("dynamic"));
+            run.violation(&format!("C03-panic:{:x}", case.hash()), &format!("executor panicked: {p}"), case.replay_json(schema.flavour()));
             return;
         }
     };
@@ -184,7 +224,7 @@ fn one(run: &Run, schema: &async_graphql::dynamic::Schema, base: &Case, world: W
     );
     let diffs = compare(&obs, &reference, &case.printed, ErrMode::Exact);
     if !diffs.is_empty() {
-        let mut rj = case.replay_json("dynamic");
+        let mut rj = case.replay_json(schema.flavour());
         rj["observed"] = obs.raw.clone();
         rj["expected_data"] = reference.data.clone();
         rj["expected_errors"] = json!(reference
